@@ -35,6 +35,7 @@ def make_tables(rnd, wd):
                          'x': [rnd.choice([-2.5, 0.0, 1.25, 3.5, 10.0]) for _ in range(n)],
                          'y': [rnd.choice([40.0, 55.5, 80.0, 100.0, 200.0]) for _ in range(n)],
                          'k': [bool(rnd.getrandbits(1)) for _ in range(n)],
+                         'w': [rnd.randint(10, 50) for _ in range(n)],
                          # (object dtype: the default str dtype of pandas 3 is not a string type to tdda; NA-like words are values)
                          's': pd.Series([rnd.choice(['a', 'bc', 'é☃', 'x y', 'q1', 'NA', 'null', 'None']) for _ in range(n)], dtype=object),
                          'd': pd.to_datetime([pd.Timestamp('2020-01-01') + pd.Timedelta(days=rnd.randint(0, 20)) for _ in range(n)])})
@@ -47,6 +48,8 @@ def make_tables(rnd, wd):
     pert.loc[2, 'y'] = float(base['y'].max()) * 1.005
     # a boolean field delivered as 0 / 1 integers: the library repairs field types before verifying, on every input format
     pert['k'] = pert['k'].astype('int64')
+    # an integer field delivered as floating-point whole numbers: what the default (sloppy) type checking forgives and strict does not
+    pert['w'] = pert['w'].astype('float64')
     return base, pert
 
 
